@@ -21,6 +21,13 @@ CLAIMED["C01"] = {
     "technique": "deterministic simulation: seeded session search over plug-in simulator configurations with peer-fault injection, refinement against a state-vector reference model",
 }
 
+CLAIMED["C14"] = {
+    "text": "Seeded search over call histories (single, batch, distribution, wavefunction and exact-expectation calls with valid and invalid arguments, interleaved by 1-3 clients) on runners built on the real base classes - the bundled simulator, simulators with run-specific native sets, a shot back-end that over-delivers and fails on schedule, each optionally behind the measurement tracker writing to a fault-injecting in-memory disk. A counter model, a peer-invocation ledger (validation before execution), attributable results and a parsed-record comparator are checked after every call. Evidence over sampled histories (<=30 calls, <=4 qubits), not proof.",
+    "design_ref": "DESIGN.md §3 C14",
+    "note": "Trusted: counter model and its narrow relaxation under injected faults, SimFS, SimRNG. Stub: ShotBackend._run_and_measure, SplitSim native applier/predicate. Real: BaseCircuitRunner, BaseWavefunctionSimulator, SymbolicSimulator, MeasurementTrackingBackend, sampling, Measurements, to_dict.",
+    "technique": "deterministic simulation: seeded call-history search with counter reference model, fake back-end peers, RNG seam and disk fault injection",
+}
+
 PENDING = {pid: "applicable (DESIGN.md §3) but its check is not built yet at this commit; not claimed until it is" for pid in
            ["C01", "C04", "C05", "C11", "C13", "C14", "C15", "C17", "C20"] if pid not in CLAIMED}
 
